@@ -11,7 +11,7 @@ PROPERTY_ID = "C07"
 LEVEL = "exploration"
 RULE = (
     "(a) complete enumeration of single-pair connect/disconnect histories: 3 nodes (Output + 2), 18 ops, all sequences of length <= 3 "
-    "(quick) / <= 5 (thorough); 4 nodes, 32 ops, length <= 3 (thorough; <= 2 quick); (b) every two-op history over 4 nodes whose second op "
+    "(quick) / <= 6 (thorough, 36 M histories); 4 nodes, 32 ops, length <= 3 (thorough; <= 2 quick); (b) every two-op history over 4 nodes whose second op "
     "is a list op over any non-empty operand subset (overlap case), both orientations, connect and disconnect; (c) Hypothesis: random "
     "operation lists over up to 8 (quick) / 16 (thorough) modules using every spelling (>>, <<, ~, lists, ModuleList chaining, "
     "project.connect with mixed ~ operands, cross-project operands, new_module in between). Oracle: reference model = set of ordered "
@@ -35,7 +35,7 @@ def exhaustive(tier):
 def plan(tier):
     descs = []
     # (a) DFS split by first op
-    depth3 = 3 if tier == "quick" else 5
+    depth3 = 3 if tier == "quick" else 6
     for first in range(18):
         descs.append({"kind": "dfs", "nodes": 3, "depth": depth3, "first": first})
     depth4 = 2 if tier == "quick" else 3
@@ -223,7 +223,7 @@ def op_list(draw, max_modules=8, max_ops=30, with_save_load=False):
     n = n0 + 1  # + output
     ops = []
     k = draw(st.integers(1, max_ops))
-    kinds = ["rshift", "lshift", "rshift_dis", "lshift_dis", "rshift_list", "lshift_list", "chain_r", "chain_l", "mlist_r_dis", "connect", "connect_single", "x", "new"]
+    kinds = ["rshift", "lshift", "rshift_dis", "lshift_dis", "rshift_list", "lshift_list", "chain_r", "chain_l", "mlist_r_dis", "mlist_r_list", "mlist_l_list", "chain_r_list", "chain_l_list", "connect", "connect_single", "x", "new"]
     weights = kinds + ["rshift", "lshift", "rshift_dis", "lshift_dis", "connect", "connect", "rshift_list"]
     if with_save_load:
         weights = weights + ["save_load", "save_load", "save_load"]
@@ -244,6 +244,10 @@ def op_list(draw, max_modules=8, max_ops=30, with_save_load=False):
             ops.append([kind, idx(), idxs(), idx()])
         elif kind == "mlist_r_dis":
             ops.append([kind, idxs(), idx()])
+        elif kind in ("mlist_r_list", "mlist_l_list"):
+            ops.append([kind, idxs(), idxs(1, 3)])
+        elif kind in ("chain_r_list", "chain_l_list"):
+            ops.append([kind, idx(), idxs(1, 3), idxs(1, 3)])
         elif kind == "connect":
             fr = [[i, draw(st.booleans())] for i in idxs(1, 3)]
             to = [[i, draw(st.booleans())] for i in idxs(1, 3)]
